@@ -75,7 +75,10 @@ def run(sid, props):
     if o.strip():
         print('refusing: /repo has uncommitted changes')
         return 2
-    rc, o = sh('git -C %s apply %s/patch.diff' % (REPO, d))
+    # a change that was delivered against an older HEAD and no longer applies is kept in its original form
+    # (patch.diff) together with the same edit re-done on the current HEAD (patch_rebased.diff)
+    pf = 'patch_rebased.diff' if os.path.exists(os.path.join(d, 'patch_rebased.diff')) else 'patch.diff'
+    rc, o = sh('git -C %s apply %s/%s' % (REPO, d, pf))
     if rc != 0:
         print('patch does not apply: ' + o[-300:])
         return 2
